@@ -5,7 +5,7 @@ cd /verif
 for d in seeded/*/; do
   id=$(basename $d)
   [ -f $d/patch.diff ] || continue
-  if [ -z "$1" ] && [ -f $d/result.json ]; then continue; fi
+  if [ "$1" != "--force" ] && [ "$1" != "--all" ] && [ -f $d/result.json ]; then continue; fi
   echo "== $id"
   python3 tools/seeded.py $id "$@" || echo "   (skipped: rc=$?)"
 done
